@@ -8,6 +8,21 @@ CHECKS = {
  "C02": dict(level="model_checking", technique="TLA+ spec (TlsRecord.tla) model-checked by TLC; TLC-generated cases replayed on the real parsers; exhaustive header sweep judged against the spec",
    text="TLC checks HeaderExact, ExactConsumption, CapAlways, FramedUpToCap, IncompleteIff, NeededExact on the specification over a bounded, boundary-rich record universe (every prefix cut, lying lengths, the cap boundary); every case is replayed through parse_tls_plaintext / _encrypted / _raw_record and compared under the pin mask.",
    note="Bounded model: guarantees hold inside the explored record universe; the binding covers the inputs explored. Trusted: TLC, the projection in harness/src/project.rs, nom semantics as transcribed in Nom.tla.", ref="6 (C02)"),
+ "C03": dict(level="model_checking", technique="TLA+ spec (TlsMessage/TlsRecord) model-checked by TLC; TLC-generated payloads replayed one-step / two-step / with-header on the real parsers",
+   text="TLC checks ExactMessages, RemainderAtTail, NeverIncomplete, OneStepEqTwoStep on the specification for payloads built from pools of well-formed and malformed messages (lists, every truncation, tails), all five content types and all unknown ones; every case is replayed on parse_tls_plaintext, raw+with_header, and parse_tls_record_with_header.",
+   note="Bounded pools of messages; binding covers explored inputs. Trusted: TLC, projection, Nom.tla transcription.", ref="6 (C03)"),
+ "C04": dict(level="model_checking", technique="TLA+ spec (TlsHandshake.tla): RFC encoder vs code-shaped decoder model-checked by TLC; ~11k TLC cases replayed on parse_tls_message_handshake and each public body parser",
+   text="TLC checks RoundTrip (+locality under suffixes), PublicBodyParsers, Rejected, WithinDeclared on ~700 abstract values of the 17 variants with per-field boundary sets (0/1/32/255/256/65535), every shortened hl, lying hl, the property's rejection list and all 240 unknown type codes; every case is replayed on the real code under its pin mask.",
+   note="Bounded value domains (boundary-rich, not all values); u24-maximum bodies not materialised. Trusted: TLC, projection, Nom.tla.", ref="6 (C04)"),
+ "C05": dict(level="model_checking", technique="TLA+ spec (TlsExtensions.tla, normative GREASE/IANA tags) model-checked by TLC; TLC cases replayed through the 3 dispatchers, 16 tag parsers and 3 list parsers",
+   text="TLC checks Dispatch (typed round trip, GREASE rule, Unknown preserved, tag = wire type, locality), DispatchersAgree, TagParserAcceptsOwnType, EmptyOnlyExtensions, LengthBeyondBlock, ListWholeBlock on the specification; ~3800 cases replayed on the real code.",
+   note="Bounded content domains per type; type space sampled in the model (full 65536 sweep is part of the thorough tier). Trusted: TLC, projection, IANA table as transcribed.", ref="6 (C05)"),
+ "C07": dict(level="model_checking", technique="TLA+ state machine (Defrag.tla) explored exhaustively by TLC with the property's clauses as invariants; one transition test per (state, operation) replayed on a real TlsRecordsParser; recorded random runs and a real-size 10 MiB stream validated by trace specifications",
+   text="Every interleaving of parse_record / parse_record_nocopy / reset over a record universe is explored (RefinesAccumulate, ErrorsPreserveState, BufferBound, InProgressIff, CompletionEqualsOneShot, NoBufferingWhenComplete, FreshAfterResetOrCompletion); the split statement is checked on every k-way split (k<=4); each explored transition is replayed on the real object comparing result, slice provenance, defrag_in_progress() and buffer length (hook); 3000+ recorded random runs are accepted by Trace_C07; a real-size stream is accepted by the length-only instance with MaxRecordData = 10 MiB.",
+   note="Model universe is small (MaxRecordData = 12 in the exhaustive model); the real constant is bound by the recorded stream. Trusted: TLC, hook verif_defrag_buffer(), projection.", ref="6 (C07)"),
+ "C08": dict(level="model_checking", technique="TLA+ spec (States.tla: documented flows + precedence rules) model-checked by TLC; the complete 25x2x23 cell table with every payload variant and all 65536 alerts swept from the crate and judged cell by cell by TLC; flow paths and random walks replayed/validated",
+   text="The relation is total and memoryless, so equality on every cell (exhaustive, all payload variants of each kind) implies equality on all finite message sequences; TLC checks the rule invariants (absorbing states, Finished, alert severity, HelloRequest, sender rule, exactly the documented flows) on the specification and judges the swept table and 3000 random sequences.",
+   note="Exhaustive over the relation's domain as the property defines it (state, direction, kind, session-id presence, alert severity); payload independence is checked on 2-3 payloads per kind and all 256 alert descriptions. Trusted: TLC, the flows as transcribed from the crate's documentation/comments.", ref="6 (C08)"),
 }
 NOT_YET = "check not built yet in this round (the specification does not cover it yet); see DESIGN.md section 10"
 
